@@ -68,11 +68,18 @@ func (s *Solutions) Scan(dest interface{}) error {
 	}
 	switch o.Kind() {
 	case reflect.Struct:
+		if !o.CanAddr() {
+			return errors.New("struct is not addressable")
+		}
+
 		t := o.Type()
 
 		fields := make(map[string]interface{}, t.NumField())
 		for i := 0; i < t.NumField(); i++ {
 			f := t.Field(i)
+			if !f.IsExported() { // Nothing can be stored in it from here. Taking its address for that would panic.
+				continue
+			}
 			name := f.Name
 			if alias, ok := f.Tag.Lookup("prolog"); ok {
 				name = alias
